@@ -411,9 +411,20 @@ func checkDoc(dc DocCase, ctx *vcommon.Ctx) *vcommon.Failure {
 	}
 	if info.depth > 150 {
 		// resultKey only renders the top 200 levels: compare the other entry
-		// point's value in full as well
+		// point's value in full as well, and send the deep document through
+		// the third entry point (a message supplied by the embedder)
 		if d := cmpDoc(n, r2.v, dc.SN, dc.EI, "$"); d != "" {
 			return vcommon.Failf("load/string-vs-bytes", "%s: the second entry point's value for the deep document differs from the reference: %s", mode, d)
+		}
+		r3, f := loadAll(e, dc.Doc, "json:load-message", dc.SN, dc.EI)
+		if f != nil {
+			return f
+		}
+		if r3.err {
+			return vcommon.Failf("load/message-vs-string", "%s: json:load-message rejects the %d-deep document that load-string accepts: %s: %s", mode, info.depth, r3.cond, r3.msg)
+		}
+		if d := cmpDoc(n, r3.v, dc.SN, dc.EI, "$"); d != "" {
+			return vcommon.Failf("load/message-vs-string", "%s: json:load-message of the deep document differs from the reference: %s", mode, d)
 		}
 	}
 	if d := cmpDoc(n, r.v, dc.SN, dc.EI, "$"); d != "" {
